@@ -721,6 +721,11 @@ func checkC10(ctx *RunCtx) int {
 		}
 		hole := d[:nh]
 		board := d[nh : nh+3+r.Intn(3)]
+		if i%6 == 5 {
+			// a long suited run (ace low or high): several straight flushes available to one seat, the cards
+			// split between hand and board in every order
+			hole, board = suitedRun(r, short, nh)
+		}
 		var info *pokerface.CombinationInfo
 		var pan interface{}
 		func() {
@@ -784,4 +789,43 @@ func engineBest(hole, board []string, req int, pr combination.PowerRankings) *po
 		panic("harness: engineBest: " + err.Error())
 	}
 	return g.GetState().Players[0].Combination
+}
+
+// suitedRun deals 6-7 consecutive cards of one suit (the ace may play low on the 52-card deck) plus
+// random filler, split at random between hole cards and board
+func suitedRun(r *rand.Rand, short bool, nh int) (hole, board []string) {
+	order := []byte("A23456789TJQKA")
+	if short {
+		order = []byte("6789TJQKA")
+	}
+	suit := "SHDC"[r.Intn(4)]
+	runLen := 6 + r.Intn(2)
+	if runLen > len(order) {
+		runLen = len(order)
+	}
+	start := r.Intn(len(order) - runLen + 1)
+	used := map[string]bool{}
+	var run []string
+	for k := 0; k < runLen; k++ {
+		c := string([]byte{suit, order[start+k]})
+		if !used[c] {
+			used[c] = true
+			run = append(run, c)
+		}
+	}
+	nb := 3 + r.Intn(3)
+	var rest []string
+	for _, c := range shuffledDeck(r, short) {
+		if !used[c] {
+			rest = append(rest, c)
+		}
+	}
+	all := append([]string{}, run...)
+	for len(all) < nh+nb {
+		all = append(all, rest[0])
+		rest = rest[1:]
+	}
+	all = all[:nh+nb]
+	r.Shuffle(len(all), func(i, j int) { all[i], all[j] = all[j], all[i] })
+	return all[:nh], all[nh:]
 }
